@@ -62,7 +62,8 @@ def run(tier, seed):
     plan = [("small", "triples", 2500 if tier == "quick" else 0),
             ("large", "identity", 0),
             ("large", "remove", 0),
-            ("small", "chains4", 400 if tier == "quick" else 6000)]
+            ("small", "chains4", 400 if tier == "quick" else 6000),
+            ("small", "shared", 1200 if tier == "quick" else 0)]
     if tier == "thorough":
         plan.append(("large", "triples", 25000))
     groups = []
